@@ -1331,3 +1331,26 @@ Proof.
   unfold creator_kwargs. cbv zeta. rewrite <- map_app. apply Permutation_map.
   rewrite Permutation_app_comm. apply (proj1 (split_lossless ps)).
 Qed.
+
+(* ------------------------------------------------------------------ round 4: no layer value is ever shown wrongly *)
+(* for every scale vmin <= vmax (degenerate or not), family, mode and alpha in {1/4..1}: the displayed intensity is a
+   monotone function of the layer value - a larger value is never shown weaker - and in colour mode it is a proper
+   alpha (between 0 and 1, never NaN / infinite; in the model's units 0 .. 4 (vmax - vmin)) *)
+Lemma value_shown_monotone fam cm lo hi a4 v v' :
+  lo <= hi -> 0 < a4 <= 4 -> v <= v' -> value_shown fam cm lo hi a4 v <= value_shown fam cm lo hi a4 v'.
+Proof.
+  intros Hlh Ha Hv.
+  assert (a4 = 1 \/ a4 = 2 \/ a4 = 3 \/ a4 = 4) as Hcases by lia.
+  unfold value_shown, shown, shown_degenerate, clip.
+  destruct (hi =? lo) eqn:E; destruct fam, cm; destruct Hcases as [->|[->|[->| ->]]]; lia.
+Qed.
+
+Lemma value_shown_alpha fam lo hi a4 v :
+  lo <= hi -> 0 < a4 <= 4 -> 0 <= value_shown fam true lo hi a4 v <= 4 * (hi - lo).
+Proof.
+  intros Hlh Ha.
+  assert (a4 = 1 \/ a4 = 2 \/ a4 = 3 \/ a4 = 4) as Hcases by lia.
+  unfold value_shown, shown, shown_degenerate, clip.
+  destruct (hi =? lo) eqn:E; [apply Z.eqb_eq in E|apply Z.eqb_neq in E];
+    destruct fam; destruct Hcases as [->|[->|[->| ->]]]; lia.
+Qed.
